@@ -11,6 +11,8 @@ NOTE = ("Trusted base: Go type checker, go/cfg, go/ssa and VTA of golang.org/x/t
         "current source; it does NOT decide the run-time behaviour (row sets, values, schedules) - see DESIGN.md section 4 'Not decided'.")
 
 CLAIMED = {
+ "C04": ("4 (C04)", "custom static analysis: symbolic path enumeration of (*DB).Transaction and the Commit/Rollback/SavePoint/RollbackTo wrappers with per-node fact snapshots, go/cfg guard facts in the deferred closures, SSA flow of BeginTx results",
+   "Static, all-paths: the user function of a Transaction block is called only after a deferred rollback of the begun handle (or of the save point just taken, same name) is registered and only when Begin/SavePoint succeeded; the rollback is conditioned on flag || named-result error with the flag cleared only after the function returned; success commits and returns Commit().Error through the named result, error paths never commit; Begin installs every transaction it begins as the derived handle's pool; Commit/Rollback forward or report ErrInvalidTransaction on every path; SavePoint/RollbackTo restore the prepared-statement pool on every path. What the database does on COMMIT/ROLLBACK is NOT decided."),
  "C05": ("4 (C05)", "custom static analysis: registration-sequence check, symbolic path enumeration of the transaction callbacks, go/cfg guard-fact dominance of every effect site (with SSA effect summaries), SSA error-flow discipline with a repository-specific sink list, SSA origin of nested-call receivers",
    "Static, all-paths/all-sites: begin-first/commit-last bracket of each write pipeline behind one predicate; exactly one of Commit/Rollback under the marker with the pool restored, pool+marker stored together only on a successful Begin; every effect site in every executor dominated by Error == nil; every error of a driver call, Rows.Scan/Close/Err, hook, save-point call or nested finisher reaches AddError / an Error field / the caller; nested writes run on a handle derived from the operation's own *DB; CreateInBatches wraps multi-batch writes in one transaction. Atomicity delivered by the database and driver-internal faults are NOT decided."),
  "C06": ("4 (C06)", "custom static analysis: SSA store/map-update/element-store enumeration with inter-procedural writes-through-parameter summaries, copy-obligation check of Statement.clone/getInstance, go/cfg guard facts with merge implications for Session, alias check of append/element stores in MergeClause/Build",
